@@ -1110,7 +1110,7 @@ class Corr:
                     newcontent.append(self.content[t] + y.content[t])
             return Corr(newcontent)
 
-        elif isinstance(y, (Obs, int, float, CObs, complex)):
+        elif isinstance(y, (Obs, int, float, CObs, complex, np.integer)):
             newcontent = []
             for t in range(self.T):
                 if _check_for_none(self, self.content[t]):
@@ -1138,7 +1138,7 @@ class Corr:
                     newcontent.append(self.content[t] * y.content[t])
             return Corr(newcontent)
 
-        elif isinstance(y, (Obs, int, float, CObs, complex)):
+        elif isinstance(y, (Obs, int, float, CObs, complex, np.integer)):
             newcontent = []
             for t in range(self.T):
                 if _check_for_none(self, self.content[t]):
@@ -1233,7 +1233,7 @@ class Corr:
                     newcontent.append(self.content[t] / y)
             return Corr(newcontent, prange=self.prange)
 
-        elif isinstance(y, (int, float)):
+        elif isinstance(y, (int, float, np.integer)):
             if y == 0:
                 raise ValueError('Division by zero will return undefined correlator')
             newcontent = []
@@ -1256,10 +1256,12 @@ class Corr:
         return Corr(newcontent, prange=self.prange)
 
     def __sub__(self, y):
+        if isinstance(y, np.integer):
+            y = int(y)
         return self + (-y)
 
     def __pow__(self, y):
-        if isinstance(y, (Obs, int, float, CObs)):
+        if isinstance(y, (Obs, int, float, CObs, np.integer)):
             newcontent = [None if _check_for_none(self, item) else item**y for item in self.content]
             return Corr(_nan_to_none(newcontent), prange=self.prange)
         else:
